@@ -112,9 +112,25 @@ def r07_2_4(chk, P, E):
     return n
 
 
-def r07_3(chk, P):
+def r07_3(chk, P, E=None):
     chk.rule('R07.3', 'every return of ov_read_filter / ov_read_float with a positive count has stored vf->current_link through '
-             'the caller\'s bitstream pointer whenever that pointer is non-null')
+             'the caller\'s bitstream pointer whenever that pointer is non-null, and no call that may change the current link '
+             '(K3 write sets; the packet fetch crosses link boundaries) lies between that store and the return: the index '
+             'reported is the one of the link the samples came from, not the one the call started in')
+    writers = set()
+    if E is not None:
+        for k, sm in E.summ.items():
+            if any(r == VF and f == 'current_link' for (o, r, f) in sm['stores']):
+                writers.add(k)
+
+    def link_switch(A, env, e):
+        nd = A.ex[e]
+        if nd['k'] == 'call':
+            return any(t in writers for t in P.call_targets(A.F, e))
+        if nd['k'] == 'assign':
+            l = A.ex[A.F.strip_casts(nd['c'][0])]
+            return l['k'] == 'member' and l.get('record') == VF and l['field'] == 'current_link'
+        return False
     n = 0
     for fn in ('ov_read_filter', 'ov_read_float'):
         F = P.need(fn)
@@ -131,7 +147,7 @@ def r07_3(chk, P):
                     r = A.ex[A.F.strip_casts(nd['c'][1])]
                     return b['k'] == 'ref' and b['decl'].get('id') == bid and r['k'] == 'member' and r['field'] == 'current_link'
             return False
-        A, h = k2.analyse(P, F, [('link_reported', stores_link, True)])
+        A, h = k2.analyse(P, F, [('link_reported', link_switch, False), ('link_reported', stores_link, True)])
         for (e, fl, v, env) in k2.ret_value_classes(A):
             if v is None or v.hi <= 0:
                 continue
@@ -400,7 +416,7 @@ def run(chk, P):
     chk.floor('R07.1', 3)
     r07_2_4(chk, P, E)
     chk.floor('R07.2', 3)
-    r07_3(chk, P)
+    r07_3(chk, P, E)
     chk.floor('R07.3', 2)
     r07_6(chk, P, E)
     chk.floor('R07.6', 3)
